@@ -14,3 +14,12 @@ def check(repo, rep):
     rep.trusted_base = TRUSTED
     rep.assumptions = ASSUME
     rep.floor('C01 obligations', len(rep.obligations), 200)
+
+
+def thorough(repo, rep):
+    from ..linear_selfcheck import run
+    r = run()
+    rep.extra['arithmetic_core_selfcheck'] = r
+    if r['unsound']:
+        rep.unknown('the Fourier-Motzkin core disagreed with brute force on %d of %d random systems: no verdict of this check can be trusted' % (r['unsound'], r['systems']))
+    print('arithmetic core self-check: %s' % r)
